@@ -1399,9 +1399,18 @@ fn mux_case(tier: Tier) -> impl Strategy<Value = MuxCase> {
 fn _assert_rt<P: RuntimeProvider>() {}
 
 pub fn check() -> Option<Check> {
-    let udp_enum = enumerate("udp_orders_le4", udp_enum_cases, run_udp);
-    let udp = prop("udp_schedules", 300_000, 6_000_000, udp_case, run_udp);
-    let mux = prop("stream_multiplexer", 300_000, 6_000_000, mux_case, run_mux);
+    let udp_enum = enumerate("udp_orders_le4", udp_enum_cases, |c: &UdpCase, rec: &mut Rec| {
+        let _det = crate::detrand::DetRand::start(crate::core::det_seed(c));
+        run_udp(c, rec)
+    });
+    let udp = prop("udp_schedules", 300_000, 6_000_000, udp_case, |c: &UdpCase, rec: &mut Rec| {
+        let _det = crate::detrand::DetRand::start(crate::core::det_seed(c));
+        run_udp(c, rec)
+    });
+    let mux = prop("stream_multiplexer", 300_000, 6_000_000, mux_case, |c: &MuxCase, rec: &mut Rec| {
+        let _det = crate::detrand::DetRand::start(crate::core::det_seed(c));
+        run_mux(c, rec)
+    });
     Some(Check {
         id: "C16",
         level: "exploration",
